@@ -554,6 +554,58 @@ def random_terms(rng, phys, nterms, coefmode, dupmode, nlabels, distinct_strings
     return terms
 
 
+def random_diagram(rng, ch, phys, nlabels=3):
+    """a random well-indexed state diagram on the tree: per edge 1..3 vertices, per node 1..4 hyperedges, each
+    sitting on one random vertex of every incident edge.  hes: [node, label, num, den, symbol, [vertex index per
+    incident edge in neighbour order], shuffle seed for the order of HyperEdge.vertices]"""
+    n = len(ch)
+    par = parents_of(ch)
+    nv = {c: rng.choice([1, 1, 2, 2, 3]) for c in range(1, n)}
+    hes = []
+    for v in range(n):
+        inc = ([v] if par[v] is not None else []) + list(ch[v])
+        for _ in range(rng.choice([1, 2, 2, 3, 4])):
+            lab = f"A{rng.randrange(nlabels)}_{phys[v]}" if rng.random() < 0.85 else f"I{phys[v]}"
+            fr = Fraction(rng.choice([1, 1, 2, -1, 3, -2]), rng.choice([1, 1, 2, 3]))
+            hes.append([v, lab, fr.numerator, fr.denominator, rng.choice(["1", "1", "g1", "g2"]),
+                        [rng.randrange(nv[e]) for e in inc], rng.randrange(10 ** 6)])
+    return {"nv": {str(k): v for k, v in nv.items()}, "hes": hes}
+
+
+def build_injected(case, ttns):
+    """the live StateDiagram of an 'inject' case, built with the public constructors"""
+    from pytreenet.ttno.state_diagram import StateDiagram
+    from pytreenet.ttno.hyperedge import HyperEdge
+    from pytreenet.ttno.vertex import Vertex
+    from pytreenet.ttno.collections import HyperEdgeColl, VertexColl
+    ch = case["children"]
+    par = parents_of(ch)
+    sdg = StateDiagram(ttns)
+    verts = {}
+    for c in preorder(ch)[1:]:
+        key = (nid(par[c]), nid(c))
+        verts[c] = [Vertex(key, []) for _ in range(case["diagram"]["nv"][str(c)])]
+        sdg.vertex_colls[key] = VertexColl(key, verts[c])
+    for v in preorder(ch):
+        sdg.hyperedge_colls[nid(v)] = HyperEdgeColl(nid(v), [])
+    for v, lab, num, den, gam, idx, sh in case["diagram"]["hes"]:
+        inc = ([v] if par[v] is not None else []) + list(ch[v])
+        vs = [verts[e][k] for e, k in zip(inc, idx)]
+        random.Random(sh).shuffle(vs)           # HyperEdge.vertices in an arbitrary order
+        h = HyperEdge(nid(v), lab, [], Fraction(num, den), gam)
+        h.add_vertices(vs)
+        sdg.add_hyperedge(h)
+    return sdg
+
+
+def coq_poly_py(sp):
+    """python polynomial {(symbols, labels): Fraction} in the shape Coq prints sd_poly"""
+    out = []
+    for (syms, labels), q in sp.items():
+        out.append(((q.numerator, q.denominator), (sorted(sym_code(g) for g in syms), [label_code(x) for x in labels])))
+    return sorted(out, key=lambda a: (a[1][1], a[1][0]))
+
+
 class C01(Prop):
     id = "C01"
     title = "Hamiltonian-to-TTNO conversion is exact"
@@ -562,22 +614,30 @@ class C01(Prop):
             "random attach order; all ordered shapes <= 5 nodes in thorough), 1..8 terms with supports of any size, shared labels, explicit "
             "identities, coefficient mode unit/frac/sym/symshared, duplicate mode none/dup/prop/mixed, 35% with expanded products of local sums "
             "(low-rank coefficient matrices: the Gaussian elimination does real row/column operations); every group is run with all four "
-            "TTNOFinder methods (one case per method) plus a malformed stream (term on an unknown site). non-trivial = >= 2 nodes and >= 2 terms; "
+            "TTNOFinder methods (one case per method) plus random well-indexed diagrams injected into TTNO.from_state_diagram and a malformed "
+            "stream (term on an unknown site). non-trivial = >= 2 nodes and >= 2 terms; "
             "distinct by case content")
     clauses = [
-        ("F", "sd_check_sound: sd_check t H d = true -> the diagram's denotation (sum over consistent selections of prod(lambda)*prod(gamma) (x) labels) "
-              "and sum_k lambda_k gamma_k (x) labels_k have equal coefficients on every key (C01_sd_check_sound), for every tree/diagram/term list"),
+        ("F", "sd_check_sound / sd_refute_sound: sd_check t H d = true -> the diagram's denotation and sum_k lambda_k gamma_k (x) labels_k have equal "
+              "coefficients on every key; sd_refute = true -> they differ on an exhibited key (C01_sd_check_sound, C01_sd_refute_sound), for every tree/diagram/term list"),
+        ("F", "the denotation is the sum over consistent selections: sd_denote = map weight (sels ...) where sels enumerates exactly the choices of one hyperedge "
+              "per node that agree on the vertex of every edge and weight = prod(lambda)*prod(gamma) (x) labels (C01_denote_is_selection_sum, C01_selections_spec); "
+              "it is computed as the leaf-to-root contraction of the tensors from_state_diagram fills"),
         ("F", "single_term_exact: for every tree with distinct identifiers the single-term diagram (one vertex per edge, one hyperedge per node, coefficient "
               "on the root hyperedge) denotes exactly that term (C01_single_term_exact)"),
         ("F", "sum_states_adds / base_exact: the concatenation of diagrams with disjoint vertices denotes the sum; the BASE construction is exact for every "
-              "tree and every term list, duplicates and proportional terms included (C01_sum_states_adds, C01_base_exact)"),
-        ("F", "padding_identity: the padded term has the term's own label on its sites and the identity label of the node's dimension elsewhere (C01_padding_identity)"),
+              "tree and every term list, duplicates and proportional terms included (C01_sum_states_adds, C01_base_exact, C01_base_exact_listwise)"),
+        ("F", "padding_identity / padding_rejects: the padded term has the term's own label on its sites and the identity label of the node's dimension elsewhere; "
+              "padding fails exactly when a term touches a site that is no node (C01_padding_identity, C01_padding_rejects)"),
         ("I", "for every explored (tree, Hamiltonian, method) the diagram built by the implementation (all four methods), exported through its public "
-              "attributes, satisfies sd_wf and sd_check by vm_compute => kernel-checked exactness of that diagram"),
-        ("V", "tensor filling: every TTNO node tensor equals, entry by entry and leg by leg, the tensor filled independently from the exported diagram; "
-              "the flat selection sum of the diagram evaluated with the operator table equals the dense contraction (einsum, 1e-9)"),
+              "attributes, satisfies sd_wf and sd_check by vm_compute => kernel-checked exactness of that diagram; instances of the recorded findings are "
+              "refuted by sd_refute (C01_refuted_duplicate_terms, C01_refuted_tree_coefficients are two of them, stated as theorems)"),
+        ("V", "tensor filling: every TTNO node tensor equals, entry by entry and leg by leg, the tensor filled independently from the exported diagram - for the "
+              "diagrams of all four methods and for random well-indexed diagrams injected into TTNO.from_state_diagram; on the injected diagrams the model's "
+              "normal form equals an independent flat enumeration of the selections exactly; the dense contraction (einsum) equals the selection sum evaluated "
+              "with the operator table (1e-9)"),
         ("V", "BASE: the model's own construction equals the implementation's diagram up to renaming of uuids (per node ordered (label, lambda, gamma, bond indices), vertices per edge); "
-              "padding: model labels == implementation's padded dictionary on every node"),
+              "padding: model labels == implementation's padded dictionary on every node; an unknown site is rejected by both"),
         ("V", "oracle: sum_k lambda_k*gamma_k*kron(A_k) in site order vs the dense TTNO and vs as_matrix(); identifiers, parent/child relations, child order; physical dimensions"),
     ]
     trusted_base = ["the export of StateDiagram objects (python identity -> names; vertices sorted by the neighbour they point to, as HyperEdge.find_tensor_position does)",
@@ -594,7 +654,7 @@ class C01(Prop):
         rng = ctx.rng(stream)
         groups = []
         cap = ctx.scale(150, 300)
-        ngroups = ctx.scale(300, 3000) * budget_scale
+        ngroups = ctx.scale(200, 2000) * budget_scale
         shapes = []
         if ctx.thorough() and stream == "main":
             for n in range(1, 6):
@@ -631,6 +691,12 @@ class C01(Prop):
                 c = dict(g)
                 c.update(kind="ham", method=m, group=gi)
                 cases.append(c)
+        rng = ctx.rng(stream + ":inject")
+        for k in range(ctx.scale(60, 600) * budget_scale):
+            ch = random_children(rng, rng.choice([1, 2, 3, 3, 4, 4, 5, 6]))
+            phys = random_phys(rng, len(ch), 100)
+            cases.append({"kind": "inject", "method": "-", "children": ch, "phys": phys, "terms": [], "nlabels": 3, "coefmode": "sym",
+                          "dupmode": "none", "diagram": random_diagram(rng, ch, phys), "seed": rng.randrange(10 ** 6), "group": -3})
         rng = ctx.rng(stream + ":malformed")
         for k in range(ctx.scale(3, 10)):
             n = rng.choice([1, 2, 3])
@@ -674,8 +740,12 @@ class C01(Prop):
         dims = {nid(i): case["phys"][i] for i in range(len(ch))}
         captured = {}
         try:
-            with spy_state_diagram(captured):
-                ttno = TTNO.from_hamiltonian(ham, ttns, finder(case["method"]))
+            if case["kind"] == "inject":
+                captured["sd"] = build_injected(case, ttns)
+                ttno = TTNO.from_state_diagram(captured["sd"], ham.conversion_dictionary, ham.coeffs_mapping)
+            else:
+                with spy_state_diagram(captured):
+                    ttno = TTNO.from_hamiltonian(ham, ttns, finder(case["method"]))
         except Exception as e:  # noqa
             site = traceback.extract_tb(e.__traceback__)[-1].name
             ob["exception"] = f"{type(e).__name__}: {e} [in {site}]"
@@ -702,11 +772,15 @@ class C01(Prop):
             dense = None
             ob["oracle_dev"] = f"dense contraction failed: {type(e).__name__}: {e}"
         try:
+            if case["kind"] == "inject":
+                raise StopIteration
             M, order = ttno.as_matrix()
             perm = [ids.index(o) for o in order]
             shp = [dims[i] for i in ids]
             R = ref.reshape(shp + shp).transpose(perm + [p + len(ids) for p in perm]).reshape(M.shape)
             ob["as_matrix_dev"] = float(np.max(np.abs(M - R)))
+        except StopIteration:
+            pass
         except Exception as e:  # noqa
             ob["as_matrix_dev"] = f"as_matrix failed: {type(e).__name__}: {e}"
         # ---- the diagram and the tensor filling
@@ -734,6 +808,13 @@ class C01(Prop):
         except Exception as e:  # noqa
             ob["fill_dev"] = f"independent filling failed: {type(e).__name__}: {e}"
         sp = selection_poly(ex, case)
+        if case["kind"] == "inject":
+            ob["poly"] = coq_poly_py(sp)
+            ob["n_selections"] = len(sp)
+            if dense is not None:
+                ob["sel_dev"] = float(np.max(np.abs(eval_poly(sp, case, conv, cm) - dense)))
+                ob["scale"] = max(1.0, float(np.max(np.abs(dense))))
+            return ob
         hp = ham_poly(case)
         ob["py_exact"] = (sp == hp)
         ob["n_selections"] = len(sp)
@@ -762,12 +843,15 @@ class C01(Prop):
             ex = ob.get("sd") if isinstance(ob, dict) else None
             have = bool(ex) and not ex.get("malformed")
             d = coq_sd(ex) if have else "sd_empty"
+            if c["kind"] == "inject":
+                exprs.append(f"(let t := {coq_tree(c)} in let d := {d} in (sd_wf t d, sd_poly t d))")
+                continue
             base = "Some (sd_canon t (sd_base t H))" if c["method"] == "BASE" else "(@None canon)"
             exprs.append(
                 f"(let t := {coq_tree(c)} in let d := {d} in "
                 f"match pad_ham idlab_std {coq_dims(c)} t {coq_uterms(c)} with "
-                f"| Some H => (true, map (fun tm => map (snd tm) (ids t)) H, sd_wf t d, sd_check t H d, sd_diff t H d, {base}) "
-                f"| None => (false, [], false, false, None, @None canon) end)")
+                f"| Some H => (true, map (fun tm => map (snd tm) (ids t)) H, sd_wf t d, sd_check t H d, sd_diff t H d, {base}, sd_refute t H d) "
+                f"| None => (false, [], false, false, None, @None canon, false) end)")
         vals = coq_eval(ctx, IMPORTS, exprs, shard=40, scope="nat_scope")
         # per-instance obligations: the exported diagram is well-formed and certified exact
         known = {k["id"] for k in load_known() if k.get("property") == self.id and k.get("status") == "known"}
@@ -798,7 +882,25 @@ class C01(Prop):
     def compare(self, case, ob, mo):
         if "harness_error" in ob:
             return f"harness error: {ob['harness_error']}"
-        padok, padded, wf, chk, diff, base = mo
+        if case["kind"] == "inject":
+            if "exception" in ob:
+                return f"from_state_diagram raised {ob['exception']} on a well-indexed diagram"
+            if ob["sd"]["malformed"]:
+                return f"harness: injected diagram exported as malformed: {ob['sd']['malformed']}"
+            wf, poly = mo
+            if not wf:
+                return "sd_wf fails on an injected well-indexed diagram"
+            # Coq prints ((n, d), (syms, labels)) as the left-nested tuple (n, d, (syms, labels))
+            mine = sorted([((a[0], a[1]), (list(a[2][0]), list(a[2][1]))) for a in poly], key=lambda a: (a[1][1], a[1][0]))
+            if mine != ob["poly"]:
+                return f"denotation of the injected diagram: model {mine} flat selection sum {ob['poly']}"
+            tol = TOL * ob.get("scale", 1.0)
+            if isinstance(ob.get("fill_dev"), str) or ob.get("fill_dev", 1) > tol:
+                return f"tensor filling differs from the injected diagram: {ob.get('fill_dev')}"
+            if ob.get("sel_dev", 1) > tol * max(1, ob["n_selections"]):
+                return f"contraction of the filled TTNO differs from the diagram's selection sum by {ob.get('sel_dev')}"
+            return None
+        padok, padded, wf, chk, diff, base, refuted = mo
         if case["kind"] == "malformed":
             if padok:
                 return "model pads a term on an unknown site"
@@ -829,6 +931,8 @@ class C01(Prop):
             return "sd_wf fails on the exported diagram (vertex/hyperedge cross references inconsistent)"
         if chk != ob["py_exact"]:
             return f"sd_check = {chk} but the flat selection sum computed in Python says exact = {ob['py_exact']}"
+        if refuted == chk:
+            return f"sd_check = {chk} and sd_refute = {refuted}: the checker and the refuter must answer oppositely"
         tol = TOL * ob["scale"]
         if isinstance(ob.get("fill_dev"), str) or ob.get("fill_dev", 1) > tol:
             return f"tensor filling differs from the diagram: {ob.get('fill_dev')}"
@@ -854,7 +958,7 @@ class C01(Prop):
     # ------------------------------------------------------------------------------ oracle
     def oracle(self, case, ob):
         m = case["method"]
-        if "harness_error" in ob:
+        if "harness_error" in ob or case["kind"] == "inject":
             return None
         if case["kind"] == "malformed":
             if "exception" not in ob:
